@@ -226,6 +226,144 @@ def gen_mapping(rng):
     return {"kind": "mapping", "style": kind, "adds": adds, "queries": queries}
 
 
+def gen_manseq(rng):
+    """Operation SEQUENCES on one live Manifest: addDependency / reverse / roll(n) / getDependency / write and read back -
+    into a fresh manifest or appended to the live one (setproduct or not)."""
+    deps = [gen_dep(rng, False) for _ in range(rng.randint(1, 6))]
+    ops = [{"op": "add", "dep": d} for d in deps[:rng.randint(1, len(deps))]]
+    names = [d["product"] for d in deps]
+    for _ in range(rng.randint(2, 7)):
+        r = rng.random()
+        if r < 0.2:
+            d = gen_dep(rng, False)
+            if rng.random() < 0.5:
+                d["product"] = rng.choice(names)         # a product listed twice: getDependency has to choose
+            ops.append({"op": "add", "dep": d})
+        elif r < 0.35:
+            ops.append({"op": "reverse"})
+        elif r < 0.55:
+            ops.append({"op": "roll", "n": rng.choice([1, 1, -1, 2, -2, 0, 5, -7])})
+        elif r < 0.75:
+            d = rng.choice(deps)
+            ops.append({"op": "getdep", "product": rng.choice(names + ["absent"]),
+                        "version": rng.choice([None, None, d["version"], "0.0"]), "flavor": rng.choice([None, None, d["flavor"], "Linux"]),
+                        "which": rng.choice([-1, -1, 0, 1, -2, 3])})
+        else:
+            ops.append({"op": "roundtrip", "noOptional": rng.random() < 0.5, "flavor": rng.choice([None, None, "Linux64"]),
+                        "into": rng.choice(["fresh", "live", "B", "B"]), "setproduct": rng.random() < 0.5})
+    return {"kind": "manseq", "product": rng.choice(["top", None]), "version": rng.choice(["1.0", None]), "ops": ops}
+
+
+def impl_manseq(c):
+    from eups.distrib import server
+    E = _eups()
+    path = os.path.join(E._c18root, "seq.manifest")
+    man = server.Manifest(c["product"], c["version"], eupsenv=E, verbosity=-1, log=open(os.devnull, "w"))
+    manB = server.Manifest("other", "9.9", eupsenv=E, verbosity=-1, log=open(os.devnull, "w"))   # a second live manifest
+
+    def dump(m):
+        return {"product": m.product, "version": m.version, "deps": [dep_dict(d) for d in m.getProducts()]}
+    out = []
+    for o in c["ops"]:
+        k = o["op"]
+        try:
+            if k == "add":
+                d = o["dep"]
+                man.addDependency(d["product"], d["version"], d["flavor"], d["tablefile"], d["instDir"], d["distId"], d["isOpt"],
+                                  d["recurse"], list(d["extra"]))
+                out.append(dump(man))
+            elif k == "reverse":
+                man.reverse()
+                out.append(dump(man))
+            elif k == "roll":
+                man.roll(o["n"])
+                out.append(dump(man))
+            elif k == "getdep":
+                d = man.getDependency(o["product"], o["version"], o["flavor"], o["which"])
+                out.append(None if d is None else dep_dict(d))
+            else:
+                written = dump(man)
+                man.write(path, noOptional=o["noOptional"], flavor=o["flavor"])
+                r = man if o["into"] == "live" else manB if o["into"] == "B" else \
+                    server.Manifest(eupsenv=E, verbosity=-1, log=open(os.devnull, "w"))
+                before = dump(r)
+                try:
+                    r.read(path, setproduct=o["setproduct"])
+                    out.append({"written": written, "before": before, "read": dump(r)})
+                except Exception as e:  # noqa
+                    out.append({"error": exc_name(e)})
+        except Exception as e:  # noqa
+            out.append({"exception": type(e).__name__})
+            break
+    return {"out": out}
+
+
+def oracle_manseq(c, io_):
+    """Install order on a live manifest, step by step from the previous listing: reverse reverses it, roll(n) rotates it,
+    an addition goes to the end, getDependency returns the which-th match, and what is written and read back is the
+    listing (in order; appended when read into the live manifest)."""
+    if not all(is_word(o["dep"][f]) for o in c["ops"] if o["op"] == "add" for f in ("product", "version")):
+        return
+    prev = []
+    key = lambda d: (d["product"], d["version"], d["flavor"], d["distId"])
+    for o, r in zip(c["ops"], io_["out"]):
+        if isinstance(r, dict) and "exception" in r:
+            yield ("manifest_sequence_runs", None, "%s raised %s" % (o["op"], r["exception"]))
+            return
+        k = o["op"]
+        if k in ("add", "reverse", "roll"):
+            got = [key(d) for d in r["deps"]]
+            if k == "add":
+                exp = prev + [key(o["dep"])]
+            elif k == "reverse":
+                exp = prev[::-1]
+            else:
+                n = o["n"] % len(prev) if prev else 0
+                exp = prev[n:] + prev[:n]
+            if got != exp:
+                yield ("manifest_same_order", None, "%s(%s): %r became %r, expected %r" % (k, o.get("n", ""), [x[0] for x in prev], [x[0] for x in got], [x[0] for x in exp]))
+            prev = got
+        elif k == "getdep":
+            m_ = [x for x in prev if x[0] == o["product"] and (o["version"] is None or x[1] == o["version"]) and
+                  (o["flavor"] is None or x[2] == o["flavor"])]
+            try:
+                exp = m_[o["which"]]
+            except IndexError:
+                exp = None
+            got = None if r is None else key(r)
+            if got != exp:
+                yield ("manifest_getDependency_is_the_which_th_match", None, "%r -> %r, expected %r" % (o, got, exp))
+        else:
+            if "error" in r:
+                if all(clean_dep(d) for d in r.get("written", {}).get("deps", [])):
+                    yield ("manifest_reads_back", None, "reading the written manifest raised %s" % r["error"])
+                continue
+            # the header names product and version: taken over when asked for (setproduct) or when the reader has none
+            for f in ("product", "version"):
+                want = r["written"][f] if (o["setproduct"] or r["before"][f] is None) else r["before"][f]
+                if r["written"][f] is not None and is_word(r["written"][f]) and r["read"][f] != want:
+                    yield ("manifest_header_product_and_version", None, "%s: reader had %r, file says %r, setproduct=%s: now %r" %
+                           (f, r["before"][f], r["written"][f], o["setproduct"], r["read"][f]))
+            w = r["written"]["deps"]
+            if not all(clean_dep(d) for d in w):
+                if o["into"] == "live":
+                    prev = [key(d) for d in r["read"]["deps"]]
+                continue
+            kept = [d for d in w if not (o["noOptional"] and d["isOpt"])]
+            got = [key(d) for d in r["read"]["deps"]]
+            tail = [(d["product"], d["version"], o["flavor"] or d["flavor"], d["distId"]) for d in kept]
+            exp = [key(d) for d in r["before"]["deps"]] + tail
+            if [(a, b) for a, b, _, _ in got] != [(a, b) for a, b, _, _ in exp]:
+                yield ("manifest_same_order", None, "written %r read back as %r" % ([x[0] for x in exp], [x[0] for x in got]))
+            if o["into"] == "live":
+                prev = got
+
+
+def clean_dep(d):
+    return is_word(d["product"]) and not d["product"].startswith("#") and is_word(d["version"]) and \
+        all(d[f] is None or is_word(d[f]) for f in ("flavor", "tablefile", "instDir", "distId"))
+
+
 def gen_tagseq(rng):
     """Operation SEQUENCES on two live TaggedProductList objects A and B: addProduct / deleteProduct / mergeProductList /
     getProducts (also sort=True, which sorts in place) / getProductInfo / write A and read it back - into a fresh list or
@@ -821,7 +959,7 @@ def impl_remap(c, E=None):
 
 
 def impl_case(c):
-    return {"manifest": impl_manifest, "taglist": impl_taglist, "mapping": impl_mapping, "mapseq": impl_mapseq, "tagseq": impl_tagseq, "remap": impl_remap,
+    return {"manifest": impl_manifest, "taglist": impl_taglist, "mapping": impl_mapping, "mapseq": impl_mapseq, "tagseq": impl_tagseq, "manseq": impl_manseq, "remap": impl_remap,
             "server": impl_server}[c["kind"]](c)
 
 
@@ -1095,7 +1233,7 @@ def oracle_server(c, io_):
 
 
 ORACLES = {"manifest": oracle_manifest, "taglist": oracle_taglist, "mapping": oracle_mapping, "remap": oracle_remap,
-           "server": oracle_server, "mapseq": oracle_mapseq, "tagseq": oracle_tagseq}
+           "server": oracle_server, "mapseq": oracle_mapseq, "tagseq": oracle_tagseq, "manseq": oracle_manseq}
 
 
 # ---- model -----------------------------------------------------------------------------------------
@@ -1120,6 +1258,8 @@ def model_requests(c, io_):
         return [{"m": "c18", "op": "mapping", "adds": c["adds"], "queries": c["queries"]}]
     if k == "mapseq":
         return [{"m": "c18", "op": "mapseq", "ops": c["ops"]}]
+    if k == "manseq":
+        return [{"m": "c18", "op": "manseq", "product": c["product"], "version": c["version"], "native": NATIVE, "ops": c["ops"]}]
     if k == "tagseq":
         return [{"m": "c18", "op": "tagseq", "tag": c["tag"], "flavorA": c["flavorA"], "flavorB": c["flavorB"], "ops": c["ops"]}]
     if k == "remap":
@@ -1142,7 +1282,7 @@ def model_output(c, io_, answers):
         if len(answers) > 1:
             out["read"] = answers[1]
         return out
-    if k in ("mapping", "mapseq", "tagseq"):
+    if k in ("mapping", "mapseq", "tagseq", "manseq"):
         return answers[0]
     if k == "server":
         return {"answers": answers[0]["answers"]}
@@ -1185,6 +1325,8 @@ def nontrivial(c, io_):
         return False
     if k == "mapping":
         return any(list(r) != q[:2] for q, r in zip(c["queries"], io_.get("applied", [])))
+    if k == "manseq":
+        return len(io_.get("out", [])) > 1
     if k == "tagseq":
         return any(isinstance(r, dict) and (r.get("other") or r.get("read")) for r in io_.get("out", []))
     if k == "mapseq":
@@ -1225,6 +1367,14 @@ def evaluate(ctx, cases):
                 ctx.hist("taglist:odd-tag")
             if "readTag" in c:
                 ctx.hist("taglist:reader-expects-another-tag")
+        elif kind == "manseq":
+            for o, r in zip(c["ops"], io_["out"]):
+                if o["op"] in ("roll", "reverse") and isinstance(r, dict) and len(r.get("deps", [])) > 1:
+                    ctx.hist("manseq:order-changed")
+                if o["op"] == "roundtrip" and o["into"] == "live" and isinstance(r, dict) and "read" in r:
+                    ctx.hist("manseq:read-into-live-manifest")
+                if o["op"] == "getdep" and r is not None:
+                    ctx.hist("manseq:getdep-found")
         elif kind == "tagseq":
             for o, r in zip(c["ops"], io_["out"]):
                 if o["op"] == "merge" and r["other"]:
@@ -1289,7 +1439,7 @@ def corpus_cases():
 
 
 GEN = {"manifest": gen_manifest, "taglist": gen_taglist, "mapping": gen_mapping, "remap": gen_remap, "server": gen_server,
-       "mapseq": gen_mapseq, "tagseq": gen_tagseq}
+       "mapseq": gen_mapseq, "tagseq": gen_tagseq, "manseq": gen_manseq}
 
 
 def enum_mappings():
@@ -1309,9 +1459,9 @@ def enum_mappings():
     return out
 
 
-QUICK = [("manifest", 2400, 600), ("taglist", 1200, 400), ("mapping", 1500, 500), ("mapseq", 1200, 400), ("tagseq", 1000, 500), ("remap", 1600, 400),
+QUICK = [("manifest", 2400, 600), ("taglist", 1200, 400), ("mapping", 1500, 500), ("mapseq", 1200, 400), ("tagseq", 1000, 500), ("manseq", 800, 400), ("remap", 1600, 400),
          ("server", 1000, 500)]
-THOROUGH = [("manifest", 60000, 600), ("taglist", 30000, 600), ("mapping", 40000, 600), ("mapseq", 30000, 600), ("tagseq", 30000, 600),
+THOROUGH = [("manifest", 60000, 600), ("taglist", 30000, 600), ("mapping", 40000, 600), ("mapseq", 30000, 600), ("tagseq", 30000, 600), ("manseq", 30000, 600),
             ("remap", 40000, 600), ("server", 25000, 600)]
 
 
@@ -1341,6 +1491,10 @@ def check_floors(ctx):
         raise common.InfraError("degenerate distribution: tag-list sequences: %d merges of a non-empty list, %d reads into a live list "
                                 "that change it" % (h.get("tagseq:merge-of-a-non-empty-list", 0),
                                                     h.get("tagseq:read-into-a-live-list-changes-it", 0)))
+    if h.get("manseq:order-changed", 0) < 100 or h.get("manseq:read-into-live-manifest", 0) < 30 or h.get("manseq:getdep-found", 0) < 30:
+        raise common.InfraError("degenerate distribution: manifest sequences: %d reorderings, %d reads into the live manifest, %d "
+                                "getDependency hits" % (h.get("manseq:order-changed", 0), h.get("manseq:read-into-live-manifest", 0),
+                                                        h.get("manseq:getdep-found", 0)))
     if h.get("remap:after-an-earlier-call-without-mapping-argument", 0) < 60:
         raise common.InfraError("degenerate distribution: %d remap cases preceded by an earlier call without a mapping argument"
                                 % h.get("remap:after-an-earlier-call-without-mapping-argument", 0))
